@@ -217,6 +217,7 @@ fn main() {
     }
     let n = cx.id;
     file.flush().unwrap();
+    vharness::evalx::exit_on_build_failures("c02");
     eprintln!("c02: {n} records over {} programs", progs.len());
     let _: Option<GOp> = None;
 }
